@@ -25,6 +25,18 @@ CHECKS = {
         text='Every generated program is executed by CPython under every combination of branch outcomes / 0..2 loop trips / raise decisions (up to a cap), each successful identifier read is recorded by source position, and supp must show that identifier through lint, completion and names_at. The oracle is the real interpreter, so the check relates supp to what Python binds - which the unit tests never do. Programs are sampled; per program the execution space is enumerated (counted separately when capped).',
         design_ref='DESIGN.md sections 3.1, 3.2, 4 (C01)',
         note='Trusts CPython 3.12 and the instrumenter (self-test each run); loop bound 2, call depth 3; grammar of vlib/gen/programs.py, not all of Python. Two listed findings (global binding read at module level; annotation reading its own target) are classified from dynamic facts.'),
+    'C02': dict(
+        technique='property-based differential testing against CPython: Hypothesis programs (structured fragment) + dynref reaching-definition oracle (decision enumeration with replay)',
+        category='exploration',
+        text='For every generated structured program, dynref records which binding site supplied each successful read over all branch/trip/raise combinations; every same-body (read, site) pair must be among supp\'s alternatives for that read, listed by location(), and not flagged W01/W02. Existential direction only, so capped programs remain usable.',
+        design_ref='DESIGN.md sections 3.1, 4 (C02)',
+        note='Same trusted base as C01; "same body" decided by the instrumenter\'s scope ids; three listed findings classified by syntactic/dynamic signatures (annotation order, conditional walrus, statement split by a comprehension).'),
+    'C03': dict(
+        technique='property-based differential testing with per-program exhaustive execution enumeration (dynref, path mode); metamorphic classifier (returns neutralised) for the listed finding',
+        category='exploration',
+        text='Both directions of the reaching-definitions relation: no phantom alternatives, has_undefined exactly when some path is unbound, E02 for never-bound names. Only programs whose whole decision space was enumerated are used, so "on no path" is decided per program; the program space is sampled.',
+        design_ref='DESIGN.md sections 3.1, 4 (C03)',
+        note='Loop bound 2; names routed through global/nonlocal and names another scope/builtin/star import could supply are excluded from the undefined/never-bound checks; listed finding "flow graph ignores return" is matched only when the discrepancy vanishes on the return-neutralised variant.'),
 }
 
 NOT_YET = 'check not built yet in this session (planned in DESIGN.md section 4); not claimed until its command exists'
